@@ -3,7 +3,7 @@
     index directory; every file-system mutation is an [op], every printed line a [line]).
     [run m tree w c inv]: the command [c] (sync over roots / remove with selectors) in mode [m] on the world
     [tree] (directory tree), [w] (what a build of each repository would record) and the index [inv]. *)
-From ZV Require Import Lib.Base Model.LocalSync Proofs.LocalSync Proofs.LocalSyncConv Proofs.LocalSyncMore Proofs.LocalSyncIdem.
+From ZV Require Import Lib.Base Model.LocalSync Model.LocalSyncSinks Generated.LocalSyncSinks Proofs.LocalSync Proofs.LocalSyncConv Proofs.LocalSyncMore Proofs.LocalSyncIdem.
 
 (** Without -f neither sync nor remove performs any file-system mutation, for every world, every index state
     (including unreadable shards) and every command: no shard removal, no build, and also no MkdirAll of the
@@ -53,55 +53,55 @@ Proof. exact up_to_date_untouched. Qed.
 Print Assumptions C33_up_to_date_untouched.
 
 (** preview, -f, preview on the same state (sync).  [wf inv]: the index directory looks like zoekt's builders leave
-    it (Proofs/LocalSyncConv.v; true of every state reachable by the tool, C34_wf_on_every_history).
-    [distinct_sources specs]: no two discovered repositories have the same source once a final ".git" component is
-    dropped (planPrune's map key) — see [C33_sync_idempotent_needs_distinct_sources].  The first preview leaves the
-    state alone ([inv0 = inv]); if the forced run then succeeds, the second preview announces NO removal and NO
-    indexing, reports every discovered repository "Up to date", succeeds — and a second forced run would perform no
-    shard operation. *)
-Theorem C33_sync_idempotent : forall tree w roots inv specs,
-  wf inv -> discover tree roots = Ok specs -> distinct_sources specs ->
+    it (Proofs/LocalSyncConv.v; true of every state reachable by the tool, C34_wf_on_every_history).  The first
+    preview leaves the state alone ([inv0 = inv]); if the forced run then succeeds, the second preview announces NO
+    removal and NO indexing, reports every discovered repository "Up to date" (its exact output: one such line per
+    repository in discovery order, then the closing hint), succeeds — and a second forced run would perform no shard
+    operation.  (No hypothesis on the discovered repositories: since fix 94727cf discovery rejects two repositories
+    whose sources differ only by a final ".git" component, Proofs/LocalSyncDup.v discover_ok_distinct_sources;
+    before it, roots x and x/.git with a nested x/.git/.git made sync -f remove and re-index ".git" forever.) *)
+Theorem C33_sync_idempotent : forall tree w roots inv,
+  wf inv ->
   let inv0 := apply_ops inv (r_ops (run_sync Dry tree w roots inv)) in
   let f := run_sync Force tree w roots inv0 in
   r_status f = 0%N ->
   let inv' := apply_ops inv0 (r_ops f) in
   let d2 := run_sync Dry tree w roots inv' in
   inv0 = inv /\
+  exists specs, discover tree roots = Ok specs /\
   announced_removals (r_out d2) = [] /\ announced_indexing (r_out d2) = [] /\
   announced_up_to_date (r_out d2) = map sp_name specs /\ r_status d2 = 0%N /\
+  r_out d2 = map utd_line specs ++ [LPassF] /\
   shard_ops (r_ops (run_sync Force tree w roots inv')) = [].
-Proof. exact sync_idempotent. Qed.
+Proof. exact sync_idempotent_full. Qed.
 Print Assumptions C33_sync_idempotent.
 
-(** The exact output of that second preview: one "Up to date" line per discovered repository, in discovery order,
-    then the closing hint; status 0; no operation. *)
-Theorem C33_second_preview_output : forall tree w roots inv specs,
-  wf inv -> discover tree roots = Ok specs -> distinct_sources specs ->
-  r_status (run_sync Force tree w roots inv) = 0%N ->
-  let inv' := apply_ops inv (r_ops (run_sync Force tree w roots inv)) in
-  r_out (run_sync Dry tree w roots inv') = map utd_line specs ++ [LPassF] /\
-  r_status (run_sync Dry tree w roots inv') = 0%N /\
-  r_ops (run_sync Dry tree w roots inv') = [].
-Proof. exact sync_second_preview. Qed.
-Print Assumptions C33_second_preview_output.
+(** The same whatever the status of the forced run, as long as discovery and the inventory succeed (the forced run
+    may end with E_INDEX because some discovered repository cannot be opened / has no HEAD — it continues with the
+    others): the second preview announces no removal and no indexing, reports exactly the indexable repositories
+    "Up to date", performs no operation, and ends with the forced run's status (it fails again for the same
+    repositories). *)
+Theorem C33_sync_idempotent_any_status : forall tree w roots inv specs,
+  wf inv -> discover tree roots = Ok specs -> existsb sh_bad inv = false ->
+  let f := run_sync Force tree w roots inv in
+  let d2 := run_sync Dry tree w roots (apply_ops inv (r_ops f)) in
+  announced_removals (r_out d2) = [] /\ announced_indexing (r_out d2) = [] /\
+  announced_up_to_date (r_out d2) = map sp_name (filter (indexable w) specs) /\
+  r_status d2 = r_status f /\ r_ops d2 = [].
+Proof. exact sync_idempotent_any_status_full. Qed.
+Print Assumptions C33_sync_idempotent_any_status.
 
-(** [distinct_sources] cannot be dropped: a root that is itself a directory called ".git" (holding another ".git",
-    so that it counts as a working tree named ".git"), given next to the working tree around it, yields two
-    repositories with ONE normalised source; sync -f from the empty index succeeds and indexes both, and the next
-    preview announces the removal and the re-indexing of ".git" — forever.  (Model-level witness; the harness does
-    not generate ".git" inside ".git".) *)
-Theorem C33_sync_idempotent_needs_distinct_sources : exists tree w roots specs,
-  wf [] /\ discover tree roots = Ok specs /\
-  r_status (run_sync Force tree w roots []) = 0%N /\
-  let inv' := apply_ops [] (r_ops (run_sync Force tree w roots [])) in
-  announced_removals (r_out (run_sync Dry tree w roots inv')) <> [] /\
-  announced_indexing (r_out (run_sync Dry tree w roots inv')) <> [].
-Proof.
-  exists twin_tree, twin_world, twin_roots, [ mkSpec dot_git twin_src_g; mkSpec twin_a twin_src_a ].
-  destruct sync_idempotent_needs_distinct_sources_w as (Hd & Hs & Hr & Hi).
-  split; [exact wf_nil|]. split; [exact Hd|]. split; [exact Hs|]. cbv zeta. rewrite Hr, Hi. split; discriminate.
-Qed.
-Print Assumptions C33_sync_idempotent_needs_distinct_sources.
+(** remove; remove -f; remove: whatever the second preview still announces (selectors that now match another
+    record) is a file that is still in the index and was not among the removals the forced run performed —
+    nothing is announced twice. *)
+Theorem C33_remove_second_preview : forall sels inv,
+  NoDup (map sh_file inv) -> r_status (run_remove Force sels inv) = 0%N ->
+  let f := run_remove Force sels inv in
+  let inv' := apply_ops inv (r_ops f) in
+  forall x, In x (announced_removals (r_out (run_remove Dry sels inv'))) ->
+    In x (map sh_file inv') /\ ~ In x (performed_removals (r_ops f)).
+Proof. exact remove_second_preview. Qed.
+Print Assumptions C33_remove_second_preview.
 
 (** The preview as it was before the repair (fix 06cdaac in /repo: IndexGitRepo(DryRun) evaluated on the
     unpruned index) was NOT faithful: a repository moved from one root to another with an unchanged name is
@@ -140,14 +140,53 @@ Proof. vm_compute. repeat split; reflexivity. Qed.
     run removes one shard and builds one, and the second preview prints one "Up to date" line and the hint. *)
 Example C33_nonvacuous_idempotent :
   wf moved_inv /\
-  (exists specs, discover moved_tree moved_roots = Ok specs /\ distinct_sources specs /\ length specs = 1) /\
+  (exists specs, discover moved_tree moved_roots = Ok specs /\ length specs = 1) /\
   r_status (run_sync Force moved_tree moved_world moved_roots moved_inv) = 0%N /\
   r_out (run_sync Dry moved_tree moved_world moved_roots
            (apply_ops moved_inv (r_ops (run_sync Force moved_tree moved_world moved_roots moved_inv))))
     = [LUpToDate moved_name moved_src_new; LPassF].
 Proof.
   split; [exact moved_inv_wf|]. split.
-  - eexists. split; [vm_compute; reflexivity|]. split; [|reflexivity].
-    apply moved_distinct_sources. vm_compute. reflexivity.
+  - eexists. split; [vm_compute; reflexivity|reflexivity].
   - vm_compute. split; reflexivity.
 Qed.
+
+(** Non-vacuity (idempotence with a failing repository): r1/a can be indexed, r1/b cannot (no HEAD); from the empty
+    index the forced run builds "a" and ends with E_INDEX; the second preview reports "a" up to date, announces
+    nothing, and ends with E_INDEX again. *)
+Example C33_nonvacuous_idempotent_any_status :
+  let tree := NDir [ ([114;49]%N, NDir [ ([97]%N, NDir [ (dot_git, NDir []) ]); ([98]%N, NDir [ (dot_git, NDir []) ]) ]) ] in
+  let w := [ ([47;114;49;47;97]%N, Some 5%N); ([47;114;49;47;98]%N, None) ] in
+  let roots := [ [[114;49]%N] ] in
+  let f := run_sync Force tree w roots [] in
+  (exists specs, discover tree roots = Ok specs /\ map (indexable w) specs = [true; false]) /\
+  r_status f = E_INDEX /\ performed_indexing (r_ops f) = [[97]%N] /\
+  r_out (run_sync Dry tree w roots (apply_ops [] (r_ops f))) = [LUpToDate [97]%N [47;114;49;47;97]%N] /\
+  r_status (run_sync Dry tree w roots (apply_ops [] (r_ops f))) = E_INDEX.
+Proof.
+  cbv zeta. split.
+  - eexists. split; vm_compute; reflexivity.
+  - vm_compute. repeat split; reflexivity.
+Qed.
+
+(** Non-vacuity (remove twice): the selector "/r/q" first matches the record NAMED "/r/q" (by name); after its
+    removal the same selector matches, by source, the record "z" whose source is /r/q: the second preview announces
+    z's shard — still in the index, not removed by the first forced run. *)
+Example C33_nonvacuous_remove_second_preview :
+  let q := [47;114;47;113]%N in
+  let inv := [ mkShard (q, 0) q [47;114;47;97]%N 1 false; mkShard ([122]%N, 0) [122]%N q 2 false ] in
+  let f := run_remove Force [q] inv in
+  NoDup (map sh_file inv) /\ r_status f = 0%N /\ performed_removals (r_ops f) = [(q, 0)] /\
+  announced_removals (r_out (run_remove Dry [q] (apply_ops inv (r_ops f)))) = [([122]%N, 0)].
+Proof.
+  cbv zeta. split; [repeat constructor; cbn; intuition discriminate|]. vm_compute. repeat split; reflexivity.
+Qed.
+
+(** The op alphabet is complete for the checked tree: the file-system-mutating calls of cmd/zoekt-local-sync, the
+    calls that reach them with their force/dry-run guards, and indexGitRepo's DryRun gate, regenerated from the
+    sources by go/ast on every run (Generated/LocalSyncSinks.v), are exactly those the model was written from
+    (Model/LocalSyncSinks.v: MkdirAll + lock file behind `force`, os.Remove behind `!dryRun`, IndexGitRepo with
+    DryRun: !force and no building call before the gate). *)
+Example C33_sinks_as_modelled :
+  ls_sinks = expected_sinks /\ ls_sink_calls = expected_sink_calls /\ ls_gate = expected_gate.
+Proof. repeat split; reflexivity. Qed.
